@@ -173,6 +173,14 @@ pub fn judge<const L: usize>(
         push("reload", Err(("reload-failed".into(), e.clone())));
         return f;
     }
+    if let Op::Observe = step.op {
+        // reading is not an operation of the book: nothing observable may differ afterwards
+        let mut b = before.clone();
+        b.time = after.time;
+        if b != *after {
+            push("observe", Err(("reading-changed-the-book".into(), b.describe_diff(after))));
+        }
+    }
     if mon.reference {
         if ret != m_ret && !matches!(step.op, Op::Reload { .. }) {
             push(
